@@ -258,7 +258,7 @@ def num_value(tok):
     return None
 
 
-def same_dump(a, b, real_ulp=0, by_value=False):
+def same_dump(a, b, real_ulp=0, by_value=False, negzero_is_zero=False):
     """Compare two dumps. Reals may differ by `real_ulp` units in the last place; with
     by_value, numbers of different kinds compare by mathematical value."""
     ta, tb = tokens(a), tokens(b)
@@ -271,7 +271,11 @@ def same_dump(a, b, real_ulp=0, by_value=False):
             if abs(int(x[1:], 16) - int(y[1:], 16)) <= real_ulp:
                 continue
         if by_value and x and y and x[0] in "nir" and y[0] in "nir":
-            if num_value(x) == num_value(y):
+            vx, vy = num_value(x), num_value(y)
+            if negzero_is_zero:
+                vx = ("q", 0, 1) if vx == ("negzero",) else vx
+                vy = ("q", 0, 1) if vy == ("negzero",) else vy
+            if vx == vy:
                 continue
         return False
     return True
